@@ -471,12 +471,10 @@ def run(ctx):
 
     # 2. generation (TLC)
     if thorough:
-        tri, _ = generate_lattice(ctx, "all convex lattice triangles |c|<=2 inside the quantifier", K=2, maxn=3)
-        big, _ = generate_lattice(
-            ctx, "convex lattice 4..8-gons |c|<=2 grown corner by corner from 1/12 of the triangles (1/3 of the faces grow)", K=2, maxn=8, pre=12, grow=3
-        )
+        tri, _ = generate_lattice(ctx, "1/4 of the convex lattice triangles |c|<=2 (every start corner and rotation class occurs)", K=2, maxn=3, pre=4)
+        big, _ = generate_lattice(ctx, "convex lattice 4..8-gons |c|<=2 grown corner by corner from 1/120 of the triangles (1/3 of the extensions)", K=2, maxn=8, pre=120, grow=3)
         k3, _ = generate_lattice(
-            ctx, "convex lattice 3..8-gons |c|<=3: 1/2000 of the triangles, all one-hemisphere faces and 1/8 of the others", K=3, maxn=8, pair=10, pre=200, grow=8, plain=4
+            ctx, "convex lattice 3..8-gons |c|<=3: 1/4000 of the triangles and 1/8 of their extensions; one-hemisphere faces all, others 1/8", K=3, maxn=8, pair=20, pre=200, grow=8, plain=8
         )
     else:
         tri, _ = generate_lattice(ctx, "1/100 of the convex lattice triangles |c|<=2; one-hemisphere faces all, others 1/2", K=2, maxn=3, pre=100, plain=2)
@@ -540,10 +538,10 @@ def run(ctx):
     for it in items[:1] + items[len(items) // 2 : len(items) // 2 + 1] + items[-1:]:
         r = rec_by_id[it["id"]]
         ctx.sample({"id": it["id"], "face": it["f"], "expected": {"lat_max": it["latmax"], "lat_min": it["latmin"], "lon": it["lon"], "wrap": it["wrap"]}, "reported": r.get("box", r.get("error"))})
-    ctx.exhaustive = thorough
+    ctx.exhaustive = False  # the LonBox model is exhaustive within its bounds; the faces are a deterministic sample of the lattice scope
     ctx.rule = (
-        "TLC enumerates convex CCW faces on the primitive directions of the lattice |c|<=2 (thorough: every triangle, every start corner; "
-        "4..8-gons grown corner by corner from a sample; quick: samples), a sample of 3..8-gons on |c|<=3, plus every catalogue face under the "
+        "TLC enumerates convex CCW faces on the primitive directions of the lattice |c|<=2 (thorough: 1/4 of all 416 064 triangles and 4..8-gons "
+        "grown corner by corner from 1/120 of them; quick: 1/100 and 1/1500), a sample of 3..8-gons on |c|<=3, plus every catalogue face under the "
         "24 rotations and every start corner; it keeps those inside the quantifier and emits the exact expected bounds (BoundsSpec.tla). "
         "Each is handed to Grid.bounds in batches, in both traversal directions, a corner at a pole with longitude 0 and with the west-most "
         "corner's longitude; TLC judges the records (JudgeBounds.tla). Non-trivial = distinct (face, direction) in at least one targeted family "
